@@ -4,6 +4,7 @@ import verus_track as vt
 import kani_track as kt
 
 IO = vt.VerusUnit('io', 'io.rs')
+BUILDER = vt.VerusUnit('builder', 'builder.rs')
 
 
 def verus(unit, modules):
@@ -45,6 +46,14 @@ PROPS = {
                 technique='contract-based verification: Hoare triples on the real To*Value::try_to_value impls, discharged by Kani/CBMC over full input domains (Vec<Duration> lists bounded)',
                 explanation='Kani contracts on the 22 real conversion impls in cadence/src/client.rs: scalar integers and floats over the whole type range (loop-free => complete), packed u64/f64 lists by buffer identity for every (len, capacity), Duration->ms/ns over all (secs, nanos) against 128-bit reference arithmetic (complete). Vec<Duration> impls are BOUNDED (list length 1..2 quick, 1..3 thorough) and listed under bounded_checks. The decimal rendering of the numbers (std Display) is trusted, not verified; rendering order of packed lists is the Verus obligation of C01 (write_value).',
                 assumptions=KANI_ASSUME + ['std integer/float Display produce the canonical numeral that parses back to the identical value (std contract, not verified)']),
+    'C03': dict(level='other', engine='kani', units=lambda tier: [kani(['types_err', 'client_c03'])],
+                technique='contract-based verification: Kani Hoare triples on the real try_send/send/send_metric/consume_error/MetricError for every entry point, callee MetricFormatter::format replaced by its contract (stub)',
+                explanation='For each (kind x value type) entry point (one value type per kind in the quick tier, all 23 in thorough) and incr/decr: a triple on the real plain form and on the real tagged+quiet form with a scripted sink whose outcome per call is symbolic (accept / refuse with one of 5 io::ErrorKinds incl. Interrupted) and with symbolic values over the whole type range. Obligations: exactly one sink call for a valid value (text handed over is pointer-identical to the returned metric), zero for a rejected one; Ok iff accepted; IoError carrying the sink error; InvalidInput for rejected values; handler exactly once iff failure. Two consecutive calls with independent outcomes per harness. Loop-free once format is a stub => complete per entry point; "for all sequences" follows because the client has no mutable state (each triple starts from an arbitrary client value). MetricError contracts proved separately in types.rs.',
+                assumptions=KANI_ASSUME + ['MetricFormatter::format returns some string (its real contract is C01, Verus); its result is not inspected here']),
+    'C04': dict(level='other', engine='verus+kani', units=lambda tier: [kani(['types_err', 'client_c03', 'builder_c04']), verus(BUILDER, ['code', 'spec', 'model'])],
+                technique='contract-based verification: Kani structure-level Hoare triples on the seven real *_with_tags impls and MetricBuilder methods (one harness per tag count), Verus contracts on the formatter for append order and rendering order',
+                explanation='Kani triples (harness inside builder.rs, reading the formatter directly): for each of the seven kinds the formatter built by the real client method carries exactly the client default tags, in configured order (pointer identity, key:value or bare chosen symbolically), and the default container id; per-call with_tag/with_tag_value land after them in call order; a per-call container id replaces the default and the client is untouched; incr/decr likewise. BOUNDED in the number of tags (0..3 defaults, 2 per-call), parametric in tag content. Verus (unbounded): MetricFormatter::with_tag/with_tag_value append at the end and touch nothing else; write_tags renders tags in vector order; format puts the container section after the tags.',
+                assumptions=KANI_ASSUME + STD_ASSUME),
     'C13': dict(level='other', engine='verus+kani', units=lambda tier: [kani(['core_stats', 'io_helpers', 'udp_sinks', 'unix_sinks']), verus(IO, ['frame', 'spec', 'model'])],
                 technique='contract-based verification: Kani Hoare triples on the real UDP/Unix sinks and adapters with send_to replaced by a recording contract stub; Verus proof of the line writer constructors',
                 explanation='Kani triples on the real UdpMetricSink/UnixMetricSink::emit, Udp/UnixWriteAdapter::write+flush and the four buffered constructors (send_to replaced by a recording stub with an arbitrary Ok(n)/Err(kind) answer): exactly one send_to per call, payload pointer- and length-identical to the metric, destination equal to the configured address/path, result passed through unchanged. Metric length is symbolic 0..=64 (the code never reads the bytes) => listed as bounded. The datagram form of the buffered sinks is C05 (Verus); here the constructors are shown to configure capacity (512 default) and a single newline.',
